@@ -168,6 +168,7 @@ func cmdV2BT(args []string) {
 			}
 		}
 	})
+	decodes += v2ExtraPass(recs[0], newRand(377), "T")
 	all := NewRecorder()
 	for _, r := range recs {
 		all.Merge(r)
@@ -328,12 +329,62 @@ func cmdV2Env(args []string) {
 		}
 		rec.Add(v2EventBody(&v, temporal, env, "E", o.e.Score(), o.e.Severity().String()), "dec=E vector="+s)
 	})
+	ndec += v2ExtraPass(recs[0], newRand(378), "E")
 	for _, r := range recs {
 		all.Merge(r)
 	}
 	s := all.Flush(flagOut, "v2env", flagChunks)
 	s.Extra = map[string]any{"assigned_evaluations": evals, "decoded": ndec, "domain": nb * (nt + 1) * (v2Count(9, 14) + 1)}
 	printSummary(s)
+}
+
+// v2ExtraPass: the sequential counterpart of v3ExtraPass -- every base vector with seeded temporal / environmental
+// groups decoded through typed nil receivers and with a seeded query asked of the receiver at every token boundary.
+func v2ExtraPass(rec *Recorder, rng *rand.Rand, lvl string) int64 {
+	var n int64
+	nb := v2Count(0, 6)
+	for bi := 0; bi < nb; bi++ {
+		for rep := 0; rep < 4; rep++ {
+			var v v2Vec
+			v2SetFromIndex(&v, 0, 6, bi)
+			for i := 6; i < v2N; i++ {
+				v[i] = uint8(rng.Intn(len(v2Defs[i].Codes)))
+			}
+			temporal := rng.Intn(4) != 0
+			env := lvl == "E" && rng.Intn(6) != 0
+			for _, mode := range []string{"nil-receiver", "queried-during-decode"} {
+				decs := map[string][]byte{"T": {'B', 'T', 'E'}, "E": {'E'}}[lvl]
+				for _, dec := range decs {
+					tp := temporal && dec != 'B'
+					s := v2String(&v, tp, env && dec == 'E')
+					if mode == "nil-receiver" {
+						useNilReceiver = true
+					} else {
+						setHook(hookQueries(rng))
+					}
+					o, err := v2Decode(dec, s)
+					useNilReceiver = false
+					setHook(nil)
+					n++
+					src := fmt.Sprintf("%s dec=%c vector=%s", mode, dec, s)
+					if err != nil {
+						rec.Add(v2ErrBody(&v, tp, env && dec == 'E', lvl, err), src)
+						continue
+					}
+					switch {
+					case lvl == "E":
+						rec.Add(v2EventBody(&v, tp, env, "E", o.e.Score(), o.e.Severity().String()), src)
+					case dec == 'B':
+						rec.Add(v2EventBody(&v, false, false, "B", o.b.Score(), o.b.Severity().String()), src)
+					default:
+						rec.Add(v2EventBody(&v, false, false, "B", o.b.Score(), o.b.Severity().String()), src+" via=BaseMetrics")
+						rec.Add(v2EventBody(&v, tp, false, "T", o.t.Score(), o.t.Severity().String()), src+" via=temporal view")
+					}
+				}
+			}
+		}
+	}
+	return n
 }
 
 func init() {
